@@ -13,11 +13,13 @@ Definition the_facts : facts :=
      f_lock_wipes_wscripts := lock_wipes_witness_scripts;
      f_lock_wipes_last := lock_wipes_last_addrs;
      f_unlock_skips_keyless := unlock_skips_keyless_accounts;
-     f_keyless_not_queued := keyless_addresses_not_queued |}.
+     f_keyless_not_queued := keyless_addresses_not_queued;
+     f_change_rejects_empty := change_rejects_empty_private |}.
 
 Definition all_true : facts :=
   {| f_cache_checked := true; f_lock_purges_cache := true; f_lock_wipes_wscripts := true;
-     f_lock_wipes_last := true; f_unlock_skips_keyless := true; f_keyless_not_queued := true |}.
+     f_lock_wipes_last := true; f_unlock_skips_keyless := true; f_keyless_not_queued := true;
+     f_change_rejects_empty := true |}.
 
 (* One clear-text buffer, named as the hook names it (canonicalised). *)
 Inductive slot :=
@@ -107,24 +109,30 @@ Fixpoint first_diff (F : facts) (nsc : nat) (s : state) (i : nat) (l : list tste
     if snap_eqb sn (model_snap nsc s) then first_diff F nsc s (S i) l' else Some (i, 2%nat)
   end.
 
-Definition case_diff (c : tcase) : option (nat * nat) :=
-  first_diff the_facts (tc_nsc c) (init (tc_nsc c) (tc_pub c) (tc_priv c)) 0 (tc_steps c).
+Definition case_diff_with (F : facts) (c : tcase) : option (nat * nat) :=
+  first_diff F (tc_nsc c) (init (tc_nsc c) (tc_pub c) (tc_priv c)) 0 (tc_steps c).
+
+Definition case_diff (c : tcase) : option (nat * nat) := case_diff_with the_facts c.
 
 Definition case_ok (c : tcase) : bool :=
   match case_diff c with None => true | Some _ => false end.
 
-Fixpoint failures_from (i : nat) (l : list tcase) : list (nat * nat * nat) :=
+Fixpoint failures_from (F : facts) (i : nat) (l : list tcase) : list (nat * nat * nat) :=
   match l with
   | [] => []
   | c :: l' =>
-    match case_diff c with
-    | None => failures_from (S i) l'
-    | Some (st, what) => (i, st, what) :: failures_from (S i) l'
+    match case_diff_with F c with
+    | None => failures_from F (S i) l'
+    | Some (st, what) => (i, st, what) :: failures_from F (S i) l'
     end
   end.
 
-(* (case index, step index, 1|2) of every case where model and implementation differ *)
-Definition failures (l : list tcase) : list (nat * nat * nat) := failures_from 0 l.
+(* (case index, step index, 1|2) of every case where model and implementation differ.
+   [failures_with]: the facts are given explicitly (the driver extracts them from the
+   tree the harness was built from; a run against a scratch copy of the repository
+   must not depend on which tree Generated/LockFacts.v was last regenerated from). *)
+Definition failures_with (F : facts) (l : list tcase) : list (nat * nat * nat) := failures_from F 0 l.
+Definition failures (l : list tcase) : list (nat * nat * nat) := failures_with the_facts l.
 Definition mismatches (l : list tcase) : list nat := map (fun t => fst (fst t)) (failures l).
 
 (* what the model says at the point of divergence (diagnostics in replay files) *)
